@@ -2,7 +2,7 @@
    The pipeline models are Gallina functions of (arguments, stdin object, clock) only: they have no environment, time zone, locale,
    working directory or hash seed to depend on, and every date component is computed by the UTC civil-calendar model proved correct
    under C17.  What remains to state is where the one extra input, the clock, can matter - and that the hash is a fixed function. *)
-From ZV Require Import Str Zerv Render Convert Bump Cli Flow Hash ClockProofs.
+From ZV Require Import Str Zerv Render Convert Bump Cli Flow Hash ClockProofs CtxFrame FlowClock.
 
 (* `zerv version`: the clock is irrelevant unless the final object is dirty *)
 Theorem c14_version_clock_only_when_dirty : forall a stdin n1 n2,
@@ -21,6 +21,18 @@ Theorem c14_clock_touches_only_bumped_timestamp : forall n z,
    v_last_hash v' = v_last_hash v /\ v_last_ts v' = v_last_ts v /\ v_last_tag v' = v_last_tag v /\ v_custom v' = v_custom v).
 Proof. exact bump_timestamp_only_ts. Qed.
 
+(* `zerv flow`: when --dirty is not forced and the state flow sees is calm (not dirty, distance 0 or unset), the clock is irrelevant *)
+Theorem c14_flow_clock_only_when_dirty_or_ahead : forall f stdin n1 n2,
+  o_dirty (f_base f) = false ->
+  (let a1 := pass_args f false in
+   match run_pass a1 (flow_overrides a1) stdin n1 with OOk cur => calm (z_vars cur) | _ => True end) ->
+  flow_output f stdin n1 = flow_output f stdin n2.
+Proof. exact flow_output_clock. Qed.
+
+(* overrides, bumps and resets never touch the VCS-derived context (distance, dirty, branch, hashes, timestamps, last tag, custom) *)
+Theorem c14_processing_keeps_context : forall a z z', apply_component_processing a z = Some z' -> ctxv (z_vars z') = ctxv (z_vars z).
+Proof. exact processing_keeps_context. Qed.
+
 Check c14_version_clock_only_when_dirty.
 
 (* non-vacuity: the branch id is the fixed-key SipHash-1-3 value (same in every process): hash_int("feature/x", 5) *)
@@ -29,3 +41,5 @@ Proof. reflexivity. Qed.
 
 Print Assumptions c14_version_clock_only_when_dirty.
 Print Assumptions c14_clock_touches_only_bumped_timestamp.
+Print Assumptions c14_flow_clock_only_when_dirty_or_ahead.
+Print Assumptions c14_processing_keeps_context.
